@@ -19,6 +19,8 @@ type SpecEnv struct {
 	pkg   *ssa.Package
 	bound map[string]Term
 	ctx   string
+	shift map[string]Term // bound variable -> slice offset it is shifted by (absolute-index form)
+	pats  *[]string
 	// resolveLocal resolves a source-level local variable name (loop invariants)
 	resolveLocal func(name string) (Val, bool)
 }
@@ -259,14 +261,46 @@ func (e *SpecEnv) eval(x *SX) Term {
 		for k, v := range e.bound {
 			n.bound[k] = v
 		}
+		n.shift = map[string]Term{}
+		for k, v := range e.shift {
+			n.shift[k] = v
+		}
+		var pats []string
+		n.pats = &pats
 		var decl []string
 		for i, bn := range x.BindNames {
 			s := u.eng.sortByName(u.tc, x.BindTypes[i], e.pkg)
 			qn := "q_" + bn
 			n.bound[bn] = Term{qn, s}
 			decl = append(decl, "("+qn+" "+u.tc.smt(s)+")")
+			// absolute-index form: if the body indexes a slice directly with this variable, quantify over
+			// the absolute array index instead (q = offset + i), so that E-matching on (select arr q) works
+			if s.K == KInt {
+				if pv := findPivot(x.Args[0], bn, x.BindNames); pv != nil {
+					func() {
+						defer func() { recover() }()
+						b := e.eval(pv)
+						if !isLit(b) && b.T.K == KSlice {
+							off := sliceOff(b)
+							n.bound[bn] = Term{"(- " + qn + " " + off.S + ")", s}
+							n.shift[bn] = off
+						}
+					}()
+				}
+			}
 		}
 		body := n.evalBool(x.Args[0])
+		if len(pats) > 0 && x.Op == "forall" && len(x.BindNames) == 1 {
+			seen := map[string]bool{}
+			var ps []string
+			for _, p := range pats {
+				if !seen[p] {
+					seen[p] = true
+					ps = append(ps, ":pattern ("+p+")")
+				}
+			}
+			return Term{"(" + x.Op + " (" + strings.Join(decl, " ") + ") (! " + body.S + " " + strings.Join(ps, " ") + "))", sBool}
+		}
 		return Term{"(" + x.Op + " (" + strings.Join(decl, " ") + ") " + body.S + ")", sBool}
 	case "field":
 		return e.field(x)
@@ -451,7 +485,18 @@ func (e *SpecEnv) index(x *SX) Term {
 		el := b.T.Go.Underlying().(*types.Slice).Elem()
 		hn, hs, es := u.elemHeapName(el)
 		h := u.heap(e.st, hn, hs)
-		return sel(Term{"(select " + h.S + " (s-ref " + b.S + "))", nil}, add(sliceOff(b), i), es)
+		arr := Term{"(select " + h.S + " (s-ref " + b.S + "))", nil}
+		if x.Args[1].Op == "ident" {
+			if off, ok := e.shift[x.Args[1].Tok]; ok && off.S == sliceOff(b).S {
+				q := "q_" + x.Args[1].Tok
+				r := sel(arr, Term{q, sInt}, es)
+				if e.pats != nil {
+					*e.pats = append(*e.pats, r.S)
+				}
+				return r
+			}
+		}
+		return sel(arr, add(sliceOff(b), i), es)
 	case KStr:
 		return sel(Term{"(str-arr " + b.S + ")", nil}, i, bvSort(8, false))
 	case KArray:
@@ -800,3 +845,42 @@ func (e *SpecEnv) seqOf(x *SX) Term {
 }
 
 var _ = token.ADD
+
+// findPivot finds an expression s such that the body contains s[v] with v the bound variable and s not
+// depending on any bound variable.
+func findPivot(x *SX, v string, binders []string) *SX {
+	if x == nil {
+		return nil
+	}
+	if x.Op == "index" && x.Args[1].Op == "ident" && x.Args[1].Tok == v && !mentions(x.Args[0], binders) {
+		return x.Args[0]
+	}
+	if x.Op == "forall" || x.Op == "exists" {
+		return nil
+	}
+	for _, a := range x.Args {
+		if p := findPivot(a, v, binders); p != nil {
+			return p
+		}
+	}
+	return nil
+}
+
+func mentions(x *SX, names []string) bool {
+	if x == nil {
+		return false
+	}
+	if x.Op == "ident" {
+		for _, n := range names {
+			if x.Tok == n {
+				return true
+			}
+		}
+	}
+	for _, a := range x.Args {
+		if mentions(a, names) {
+			return true
+		}
+	}
+	return false
+}
